@@ -560,4 +560,241 @@ theorem commonBlockdim_ok {bd : List Layout} {T : Int} (h : WF bd T) :
         apply hpos
         intro c hc; exact hp c (hmemnt c hc).1
 
+/-! ### `coarse_blockdim` -/
+
+theorem minByLen_mem (d : Layout) (ds : List Layout) : minByLen d ds ∈ d :: ds := by
+  have := foldl_pick_mem (fun e best : Layout => decide (e.length < best.length)) ds d
+  simpa [minByLen] using this
+
+theorem foldl_minlen_le : ∀ (ds : List Layout) (d : Layout),
+    (ds.foldl (fun best e => if e.length < best.length then e else best) d).length ≤ d.length ∧
+    ∀ c ∈ ds, (ds.foldl (fun best e => if e.length < best.length then e else best) d).length ≤ c.length
+  | [], d => by simp
+  | e :: es, d => by
+    simp only [List.foldl_cons]
+    have ih := foldl_minlen_le es (if e.length < d.length then e else d)
+    have hle : (if e.length < d.length then e else d).length ≤ d.length ∧
+        (if e.length < d.length then e else d).length ≤ e.length := by
+      split <;> omega
+    refine ⟨by omega, ?_⟩
+    intro c hc
+    rcases List.mem_cons.mp hc with rfl | hc
+    · omega
+    · exact ih.2 c hc
+
+theorem minByLen_le (d : Layout) (ds : List Layout) : ∀ c ∈ d :: ds, (minByLen d ds).length ≤ c.length := by
+  intro c hc
+  have := foldl_minlen_le ds d
+  rcases List.mem_cons.mp hc with rfl | hc
+  · exact this.1
+  · exact this.2 c hc
+
+/-- structure of the result of `coarseBlockdim`, no hypotheses on the input -/
+theorem coarseBlockdim_cases (bd : List Layout) :
+    coarseBlockdim bd = commonBlockdim bd ∨
+    ∃ r, coarseBlockdim bd = .ok r ∧ r ∈ bd ∧ r.length > 1 ∧
+      (∀ c ∈ bd, c.length > 1 → r.length ≤ c.length) ∧
+      (∀ c ∈ bd, c.length > 1 → c = r ∨ ∀ b ∈ interior r, b ∈ interior c) := by
+  unfold coarseBlockdim
+  by_cases hany : anyTruthy bd = true
+  · simp only [hany, Bool.not_true, Bool.false_eq_true, if_false]
+    cases hnt : nonTrivial bd with
+    | nil => left; simp [commonBlockdim, hany, hnt]
+    | cons d ds =>
+      cases ds with
+      | nil => left; simp [commonBlockdim, hany, hnt]
+      | cons d' ds' =>
+        simp only
+        by_cases hall : (d :: d' :: ds').all (fun e => decide (isum e = isum d)) = true
+        · simp only [hall, Bool.not_true, Bool.false_eq_true, if_false]
+          by_cases hal : alignsAll (minByLen d (d' :: ds')) (d :: d' :: ds') = true
+          · right
+            simp only [hal, if_true]
+            have hmem := minByLen_mem d (d' :: ds')
+            rw [← hnt] at hmem
+            have hm := (mem_nonTrivial _ bd).mp hmem
+            refine ⟨_, rfl, hm.1, hm.2, ?_, ?_⟩
+            · intro c hc hl
+              apply minByLen_le
+              rw [← hnt]; exact (mem_nonTrivial c bd).mpr ⟨hc, hl⟩
+            · intro c hc hl
+              have hcnt : c ∈ d :: d' :: ds' := by
+                rw [← hnt]; exact (mem_nonTrivial c bd).mpr ⟨hc, hl⟩
+              unfold alignsAll at hal
+              rw [List.all_eq_true] at hal
+              have := hal c hcnt
+              simp only [Bool.or_eq_true, decide_eq_true_eq, List.all_eq_true] at this
+              rcases this with h | h
+              · exact Or.inl h
+              · exact Or.inr h
+          · left
+            simp only [hal, Bool.false_eq_true, if_false]
+        · left
+          simp only [hall, Bool.not_false, if_true]
+          simp [commonBlockdim, hany, hnt, hall]
+  · left
+    simp only [Bool.not_eq_true] at hany
+    simp [commonBlockdim, hany]
+
+/-! interior boundaries vs `bnds` -/
+
+theorem cumsumFrom_shift (a : Int) : ∀ (l : List Int) (b : Int),
+    b ∈ cumsumFrom a l ↔ ∃ b', b' ∈ cumsumFrom 0 l ∧ b = a + b'
+  | [], b => by simp [cumsumFrom]
+  | x :: xs, b => by
+    simp only [cumsumFrom, List.mem_cons]
+    constructor
+    · rintro (h | h)
+      · exact ⟨0 + x, Or.inl rfl, by omega⟩
+      · obtain ⟨b', hb', e⟩ := (cumsumFrom_shift (a + x) xs b).mp h
+        exact ⟨x + b', Or.inr ((cumsumFrom_shift (0 + x) xs _).mpr ⟨b', hb', by omega⟩), by omega⟩
+    · rintro ⟨b', h | h, e⟩
+      · exact Or.inl (by omega)
+      · obtain ⟨b'', hb'', e'⟩ := (cumsumFrom_shift (0 + x) xs b').mp h
+        exact Or.inr ((cumsumFrom_shift (a + x) xs b).mpr ⟨b'', hb'', by omega⟩)
+
+/-- for a non-empty layout the boundaries are `0`, the interior boundaries, and the total -/
+theorem mem_bnds_iff : ∀ (c : Layout), c ≠ [] → ∀ b,
+    b ∈ bnds c ↔ (b = 0 ∨ b ∈ interior c ∨ b = isum c)
+  | [], h, _ => absurd rfl h
+  | [x], _, b => by
+    simp [bnds, interior, cumsum, cumsumFrom, isum]
+  | x :: y :: ys, _, b => by
+    have ih := mem_bnds_iff (y :: ys) (by simp)
+    rw [mem_bnds_cons]
+    simp only [interior, cumsum, List.dropLast_cons_cons, cumsumFrom, isum, List.mem_cons] at ih ⊢
+    rw [cumsumFrom_shift (0 + x)]
+    constructor
+    · rintro (h | ⟨b', hb', e⟩)
+      · exact Or.inl h
+      · rcases (ih b').mp hb' with h | h | h
+        · exact Or.inr (Or.inl (Or.inl (by omega)))
+        · exact Or.inr (Or.inl (Or.inr ⟨b', h, by omega⟩))
+        · exact Or.inr (Or.inr (by omega))
+    · rintro (h | (h | ⟨b', hb', e⟩) | h)
+      · exact Or.inl h
+      · exact Or.inr ⟨0, zero_mem_bnds _, by omega⟩
+      · exact Or.inr ⟨b', (ih b').mpr (Or.inr (Or.inl hb')), by omega⟩
+      · exact Or.inr ⟨isum (y :: ys), isum_mem_bnds _, by simp only [isum]; omega⟩
+
+theorem bnds_sub_of_interior_sub (r c : Layout) (hr : r ≠ []) (hc : c ≠ []) (hs : isum r = isum c)
+    (h : ∀ b ∈ interior r, b ∈ interior c) : ∀ b ∈ bnds r, b ∈ bnds c := by
+  intro b hb
+  rcases (mem_bnds_iff r hr b).mp hb with h0 | h1 | h2
+  · subst h0; exact zero_mem_bnds c
+  · exact (mem_bnds_iff c hc b).mpr (Or.inr (Or.inl (h b h1)))
+  · exact (mem_bnds_iff c hc b).mpr (Or.inr (Or.inr (by omega)))
+
+/-- `coarse_blockdim` on well-formed input: it succeeds, and the result is either
+`commonBlockdim`'s or one of the inputs -- a non-trivial one with the fewest blocks -- every
+boundary of which is a boundary of every other non-trivial input. -/
+theorem coarseBlockdim_ok {bd : List Layout} {T : Int} (h : WF bd T) :
+    ∃ r, coarseBlockdim bd = .ok r ∧
+      (commonBlockdim bd = .ok r ∨
+        (r ∈ bd ∧ r.length > 1 ∧ (∀ c ∈ bd, c.length > 1 → r.length ≤ c.length) ∧
+          ∀ c ∈ bd, c.length > 1 → ∀ b ∈ bnds r, b ∈ bnds c)) := by
+  rcases coarseBlockdim_cases bd with heq | ⟨r, hr, hmem, hlen, hmin, hsub⟩
+  · obtain ⟨r, hr, _⟩ := commonBlockdim_ok h
+    exact ⟨r, by rw [heq, hr], Or.inl hr⟩
+  · refine ⟨r, hr, Or.inr ⟨hmem, hlen, hmin, ?_⟩⟩
+    intro c hc hl
+    rcases hsub c hc hl with rfl | hsub
+    · exact fun b hb => hb
+    · exact bnds_sub_of_interior_sub r c (h.nonempty r hmem) (h.nonempty c hc)
+        (by rw [h.sum r hmem, h.sum c hc]) hsub
+
+/-! ### the size guard -/
+
+theorem worstLoop_ge_acc (lay : Nat → Layout) : ∀ (ops : List Opd) (w : Int), w ≤ worstLoop lay ops w
+  | [], w => by simp [worstLoop]
+  | a :: rest, w => by
+    simp only [worstLoop]
+    by_cases hgt : targetBytes lay a > currentBytes a
+    · have := worstLoop_ge_acc lay rest (max w (targetBytes lay a))
+      simp only [hgt, if_true]; omega
+    · have := worstLoop_ge_acc lay rest w
+      simp only [hgt, if_false]; omega
+
+theorem worstLoop_ge (lay : Nat → Layout) : ∀ (ops : List Opd) (w : Int) (a : Opd), a ∈ ops →
+    targetBytes lay a > currentBytes a → targetBytes lay a ≤ worstLoop lay ops w
+  | [], _, _, h, _ => by cases h
+  | a' :: rest, w, a, h, hgt => by
+    simp only [worstLoop]
+    rcases List.mem_cons.mp h with rfl | h
+    · have := worstLoop_ge_acc lay rest
+        (if targetBytes lay a > currentBytes a then max w (targetBytes lay a) else w)
+      simp only [hgt, if_true] at this ⊢
+      omega
+    · exact worstLoop_ge lay rest _ a h hgt
+
+theorem iprod_map_le {α} (f g : α → Int) : ∀ (l : List α), (∀ x ∈ l, 0 ≤ f x ∧ f x ≤ g x) →
+    0 ≤ iprod (l.map f) ∧ iprod (l.map f) ≤ iprod (l.map g)
+  | [], _ => by simp [iprod]
+  | x :: xs, h => by
+    have h1 := h x List.mem_cons_self
+    have ih := iprod_map_le f g xs (fun y hy => h y (List.mem_cons_of_mem _ hy))
+    simp only [List.map_cons, iprod]
+    refine ⟨Int.mul_nonneg h1.1 ih.1, ?_⟩
+    exact Int.mul_le_mul h1.2 ih.2 ih.1 (by omega)
+
+theorem iprod_map_congr {α} (f g : α → Int) : ∀ (l : List α), (∀ x ∈ l, f x = g x) →
+    iprod (l.map f) = iprod (l.map g)
+  | [], _ => rfl
+  | x :: xs, h => by
+    simp only [List.map_cons, iprod]
+    rw [h x List.mem_cons_self, iprod_map_congr f g xs (fun y hy => h y (List.mem_cons_of_mem _ hy))]
+
+/-- **C17 limit, abstract form.**  `chunkss` are the layouts chosen before the guard (any
+oracle value), `fine` the refinement.  Hypotheses: `fine` only splits every participating
+operand axis (`hfine`), and a chosen layout that has at least as many blocks as the
+refinement *is* the refinement (`hco`; true whenever the chosen layout is a coarsening of the
+refinement -- see `C17_limit` where both are derived for the concrete model).  Then after the
+guard no operand's largest block exceeds `max limit (its own largest block)`. -/
+theorem sizeGuard_limit (limit : Int) (hlim : limit ≠ 0) (chunkss fine : Nat → Layout) (ops : List Opd)
+    (hit : ∀ a ∈ ops, 0 ≤ a.itemsize)
+    (hfine : ∀ a ∈ ops, ∀ ax ∈ a.axes, ax.live = true → imax (fine ax.label) ≤ imax ax.chunks)
+    (hco : ∀ a ∈ ops, ∀ ax ∈ a.axes, ax.live = true →
+      (fine ax.label).length ≤ (chunkss ax.label).length → chunkss ax.label = fine ax.label) :
+    ∀ a ∈ ops, targetBytes (sizeGuard (some limit) chunkss fine ops) a ≤ max limit (currentBytes a) := by
+  intro a ha
+  by_cases hw : worstOf chunkss ops > limit
+  · -- guard fires: every participating index ends at the refinement
+    have hfin : ∀ ax ∈ a.axes.filter Ax.live,
+        imax (sizeGuard (some limit) chunkss fine ops ax.label) = imax (fine ax.label) := by
+      intro ax hax
+      have hmem := (List.mem_filter.mp hax)
+      simp only [sizeGuard, hw, hlim, ne_eq, not_false_eq_true, true_and]
+      by_cases hc : coarsened chunkss fine ax.label = true
+      · simp only [hc, if_true]
+      · simp only [hc, Bool.false_eq_true, if_false]
+        have : (fine ax.label).length ≤ (chunkss ax.label).length := by
+          simp only [coarsened, decide_eq_true_eq] at hc; omega
+        rw [hco a ha ax hmem.1 hmem.2 this]
+    have h1 : targetBytes (sizeGuard (some limit) chunkss fine ops) a =
+        a.itemsize * iprod ((a.axes.filter Ax.live).map (fun ax => imax (fine ax.label))) := by
+      unfold targetBytes
+      rw [iprod_map_congr _ _ _ hfin]
+    have h2 := iprod_map_le (fun ax : Ax => imax (fine ax.label)) (fun ax : Ax => imax ax.chunks)
+      (a.axes.filter Ax.live) (by
+        intro ax hax
+        have hmem := (List.mem_filter.mp hax)
+        exact ⟨imax_nonneg _, hfine a ha ax hmem.1 hmem.2⟩)
+    have h3 : targetBytes (sizeGuard (some limit) chunkss fine ops) a ≤ currentBytes a := by
+      rw [h1]; unfold currentBytes
+      exact Int.mul_le_mul_of_nonneg_left h2.2 (hit a ha)
+    omega
+  · -- guard does not fire: the chosen layouts stay, and `worst ≤ limit`
+    have h1 : targetBytes (sizeGuard (some limit) chunkss fine ops) a = targetBytes chunkss a := by
+      unfold targetBytes
+      apply congrArg
+      apply iprod_map_congr
+      intro ax _
+      simp only [sizeGuard, hw, false_and, and_false, if_false]
+    rw [h1]
+    by_cases hgt : targetBytes chunkss a > currentBytes a
+    · have := worstLoop_ge chunkss ops 0 a ha hgt
+      unfold worstOf at hw
+      omega
+    · omega
+
 end Dask.Lemmas.Unify
